@@ -13,6 +13,8 @@ var Registry = map[string]func(tier string) int{
 	"C06": C06,
 	"C12": C12,
 	"C13": C13,
+	"C14": C14,
+	"C17": C17,
 	"C20": C20,
 }
 
